@@ -646,6 +646,45 @@ def main(ctx):
                             radii=list(SEQ_RAD), second_set=len(SEQ_SECOND), maxmatch=[0, 1, 2],
                             routes=["HTM.match", "Matcher.match", "Matcher.match(file=)"]))
 
+    def coords(pts):
+        return np.array([p[0] for p in pts]), np.array([p[1] for p in pts])
+
+    # ------------------------------------------------------------- near deep triangle edges
+    # points placed 5e-8 .. 1e-6 rad on either side of edges of depth-13 triangles (own long-double subdivision, from
+    # mc/checks/c13.py), matched against themselves with radii 0 .. 1e-5 degree at depths 10..13: a point that is
+    # filed under the neighbouring triangle is not even a candidate for the tiny circle around its identical copy
+    from mc.checks import c13 as G
+
+    def near_edge_points():
+        pts = []
+        for r, bits in ((3, 0x2B3A5C1), (5, 0x0F1E2D3), (6, 0x3C96A55), (0, 0x1555555)):
+            tid = ((8 + r) << 26) | (bits & ((1 << 26) - 1))
+            for j in range(3):
+                for t in (0.3, 0.5):
+                    m, nrm = G.edge_frame(13, tid, j, t)
+                    for ang in (5e-8, -5e-8, 2e-7, -2e-7, 1e-6, -1e-6):
+                        v = G.move(m, nrm, ang)
+                        ra_, dec_ = G.radec(v)
+                        pts.append((float(ra_), float(dec_)))
+        return tuple(pts)
+
+    NEP = near_edge_points()
+
+    def one_edge(case, rec):
+        r, depth, mm, half = case
+        p1 = NEP[::2] if half == "even" else NEP
+        T = Truth(p1, NEP, np.full(len(p1), r))
+        c1 = coords(p1)
+        c2 = coords(NEP)
+        n = run_routes(case, rec, T, depth, c1, c2, r, mm, ("oneshot-mem", "matcher-mem"))
+        if n is None:
+            return
+        rec.ok(case, outcome="near-edges/%s" % mm_class(T, mm), nontrivial=True, calls=n)
+
+    eunits = [(r, d, mm, half) for r in (0.0, 1e-6, 1e-5, 5e-5) for d in ctx.pick((10, 12, 13), (9, 10, 11, 12, 13, 14))
+              for mm in (0, 1) for half in ("all", "even")]
+    ctx.lattice("near-deep-edges", eunits, one_edge, bounds=dict(points=len(NEP), offsets_rad=[5e-8, 2e-7, 1e-6], radii=[0.0, 1e-6, 1e-5, 5e-5]))
+
     # ------------------------------------------------------------------- sets
     def one_set(case, rec):
         g, s1, s2, variant, radspec, depth, mm = case
